@@ -156,6 +156,17 @@ theorem Inv.extend {S T : List (Pt α)} {b b2 : Box α} (h : Inv S b) (h2 : Inv 
     subst hT; simpa using h
   | false =>
     simp only [Bool.false_eq_true, if_false]
+    cases hb : emptyB b with
+    | true =>
+      have hS : S = [] := by
+        cases S with
+        | nil => rfl
+        | cons v vs => have := h.nonempty_of_mem (v := v) (by simp); simp [hb] at this
+      subst hS
+      have e : (⟨b2.mn, b2.mx⟩ : Box α) = b2 := rfl
+      simpa [e] using h2
+    | false =>
+    simp only [Bool.false_eq_true, if_false]
     obtain ⟨ex, ey⟩ := (not_emptyB b2).1 he
     have e1 : min (min b.mn.x b2.mn.x) b2.mx.x = min b.mn.x b2.mn.x := by
       apply min_eq_left; exact le_trans (min_le_right _ _) ex
